@@ -90,7 +90,11 @@ def ex_kraus(p, seed):
     if not ok:
         out.fail("to_kraus_matrices_from_hs:raises-%s:%s" % (type(kl).__name__, tag), det + " | " + A.fmt_exc(kl))
     elif len(kl) == 0:
-        out.fail("to_kraus_matrices_from_hs:empty-for-cp:%s" % tag, det + " | no Kraus operators for a CP map (min Choi eigenvalue %.3g)" % ev.min())
+        # CP verdict at the default atol 1e-13: only asserted when the rounding noise of the Choi spectrum is below atol/10
+        if ev.min() >= -1e-14:
+            out.fail("to_kraus_matrices_from_hs:empty-for-cp:%s" % tag, det + " | no Kraus operators for a CP map (min Choi eigenvalue %.3g)" % ev.min())
+        else:
+            out.count("kraus_in_band")
     else:
         kk = kraus_action_check(out, "to_kraus_matrices_from_hs", tag, kl, ks, d, det)
         if kk is not None:
